@@ -35,6 +35,7 @@ type pollCtx struct {
 	cancelAt int // -1: never
 	open     chan struct{}
 	closed   chan struct{}
+	deadline time.Time // zero = none
 }
 
 func newPollCtx(cancelAt int) *pollCtx {
@@ -42,7 +43,12 @@ func newPollCtx(cancelAt int) *pollCtx {
 	close(c.closed)
 	return c
 }
-func (c *pollCtx) Deadline() (time.Time, bool) { return time.Time{}, false }
+func (c *pollCtx) Deadline() (time.Time, bool) {
+	if !c.deadline.IsZero() {
+		return c.deadline, true
+	}
+	return time.Time{}, false
+}
 func (c *pollCtx) Done() <-chan struct{} {
 	c.mu.Lock()
 	defer c.mu.Unlock()
@@ -197,6 +203,9 @@ func runProgram(ast MalType, cancelAt int, script string, names []string) string
 	return runProgramIn(ast, cancelAt, script, names, false)
 }
 
+// deadlineMode is set by the engine's run for payloads carrying d=1
+var deadlineMode bool
+
 func runProgramIn(ast MalType, cancelAt int, script string, names []string, child bool) string {
 	ec := &evalCase{}
 	var e EnvType
@@ -210,6 +219,11 @@ func runProgramIn(ast MalType, cancelAt int, script string, names []string, chil
 		return "setup-error " + oneLine(err.Error())
 	}
 	ctx := newPollCtx(cancelAt)
+	if deadlineMode && cancelAt < 0 {
+		// a caller's context that carries a (far) deadline: `try` then derives a budget context for its body; nothing
+		// the program computes may depend on that
+		ctx.deadline = time.Now().Add(2 * time.Hour)
+	}
 	var calls []string
 	if script != "-" {
 		stepMu.Lock()
@@ -255,7 +269,11 @@ func runProgramIn(ast MalType, cancelAt int, script string, names []string, chil
 		b.WriteString(render(t))
 	}
 	b.WriteString("] marks=" + fmt.Sprint(ec.marks))
-	b.WriteString(" ticks=" + strconv.Itoa(ctx.calls))
+	if ctx.deadline.IsZero() {
+		b.WriteString(" ticks=" + strconv.Itoa(ctx.calls))
+	} else {
+		b.WriteString(" ticks=-") // contexts derived from this one poll it as well: the count means nothing here
+	}
 	b.WriteString(" defs=[")
 	for i, n := range names {
 		if i > 0 {
@@ -292,6 +310,15 @@ func initPayload() string {
 // request payload: c=<n|-> s=<script|-> n=<names,|-> [e=child] | <ast>
 func evalPayloadChild(ast MalType) string {
 	return "c=- s=- n=- e=child | " + render(ast)
+}
+
+// evalPayloadD: the program runs under a context with a far deadline
+func evalPayloadD(names []string, ast MalType) string {
+	ns := "-"
+	if len(names) > 0 {
+		ns = strings.Join(names, ",")
+	}
+	return "c=- s=- n=" + ns + " d=1 | " + render(ast)
 }
 
 func evalPayloadChildC(ast MalType, cancelAt int) string {
@@ -350,6 +377,8 @@ func (e *evalEngine) run(payload string) string {
 	if err != nil {
 		return "bad-case"
 	}
+	deadlineMode = strings.Contains(" "+strings.SplitN(payload, " | ", 2)[0]+" ", " d=1 ")
+	defer func() { deadlineMode = false }()
 	return runProgramIn(ast, cancelAt, script, names, strings.Contains(strings.SplitN(payload, " | ", 2)[0], "e=child"))
 }
 
